@@ -16,7 +16,9 @@ type Injection struct {
 var injectKinds = []string{"goto", "labelled-break", "labelled-continue", "select-default", "select-recv", "defer", "defer-in-if",
 	"fallthrough-yielding", "range-func", "range-ptr-array", "yield-if-init", "yield-switch-init", "go-yield",
 	// the construct without any yield of its own, directly in the generator body (not in a closure)
-	"select-break-noyield", "labelled-break-noyield", "goto-noyield", "defer-noyield", "select-default-noyield"}
+	"select-break-noyield", "labelled-break-noyield", "goto-noyield", "defer-noyield", "select-default-noyield",
+	// constructs placed inside an otherwise trivial (non-yielding) loop of the generator body
+	"defer-in-plain-loop", "select-in-plain-loop", "labelled-range", "yield-as-value"}
 
 // rawInject returns the source text of the construct (placeholders as in templates).
 func rawInject(kind string, tag func() int, control bool) string {
@@ -61,6 +63,17 @@ func rawInject(kind string, tag func() int, control bool) string {
 		return fmt.Sprintf("L9:\n\tfor i9 := 0; i9 < 3; i9++ {\n\t\tfor {\n\t\t\tvrt.E(%d, i9)\n\t\t\tbreak L9\n\t\t}\n\t}\n«Yield»(87)", tag())
 	case "goto-noyield":
 		return fmt.Sprintf("if len(\"x\") == 2 {\n\tgoto L9\n}\nvrt.E(%d)\nL9:\n\tvrt.E(%d)\n«Yield»(86)", tag(), tag())
+	case "defer-in-plain-loop":
+		if control {
+			return fmt.Sprintf("for i9 := 0; i9 < 2; i9++ {\n\tdefer vrt.E(%d, i9)\n}\nvrt.E(%d)", tag(), tag())
+		}
+		return fmt.Sprintf("for i9 := 0; i9 < 2; i9++ {\n\tdefer vrt.E(%d, i9)\n\tvrt.E(%d, i9)\n}\n«Yield»(84)", tag(), tag())
+	case "select-in-plain-loop":
+		return fmt.Sprintf("ch9 := make(chan int, 2)\nch9 <- 1\nch9 <- 2\nfor i9 := 0; i9 < 3; i9++ {\n\tselect {\n\tcase v9 := <-ch9:\n\t\tif v9 == 2 {\n\t\t\tbreak\n\t\t}\n\t\tvrt.E(%d, v9)\n\tdefault:\n\t\tvrt.E(%d, i9)\n\t}\n}\n%s", tag(), tag(), y("83"))
+	case "labelled-range":
+		return fmt.Sprintf("L9:\n\tfor i9 := range 3 {\n\t\tfor {\n\t\t\tvrt.E(%d, i9)\n\t\t\tcontinue L9\n\t\t}\n\t}\n%s", tag(), y("82"))
+	case "yield-as-value":
+		return "y9 := «Yield»[int]\ny9(81)\n«Yield»(80)"
 	case "defer-noyield":
 		return fmt.Sprintf("func() {\n\tdefer vrt.E(%d)\n}()\ndefer vrt.E(%d)\n«Yield»(85)", tag(), tag())
 	}
@@ -72,7 +85,7 @@ func rawInject(kind string, tag func() int, control bool) string {
 func Inject(r *prng.R, f *Func, tag func() int) Injection {
 	kinds := injectKinds
 	inj := Injection{Kind: kinds[r.Intn(len(kinds))], Control: r.Chance(1, 4)}
-	if inj.Control && (inj.Kind == "yield-if-init" || inj.Kind == "yield-switch-init" || inj.Kind == "go-yield" || strings.HasSuffix(inj.Kind, "-noyield")) {
+	if inj.Control && (inj.Kind == "yield-if-init" || inj.Kind == "yield-switch-init" || inj.Kind == "go-yield" || inj.Kind == "yield-as-value" || strings.HasSuffix(inj.Kind, "-noyield")) {
 		inj.Control = false // these constructs ARE a yield; there is no yield-free control of them
 	}
 	text := rawInject(inj.Kind, tag, inj.Control)
@@ -82,6 +95,9 @@ func Inject(r *prng.R, f *Func, tag func() int) Injection {
 		s = &S{K: SRaw, Src: "func() {\n" + ind + "\n}()"}
 	} else {
 		s = &S{K: SRaw, Src: text}
+		if inj.Kind == "yield-as-value" {
+			s.Ref = "y9 := ʏ.Yield\ny9(81)\nʏ.Yield(80)" // never run: the program must be rejected
+		}
 	}
 	// candidate positions: every statement list of the generator body outside literals,
 	// not inside a switch case body for constructs that declare labels twice etc.
